@@ -25,7 +25,7 @@ META = dict(
     bounds=dict(quick='21 database descriptions (1-3 merged parts, 0-2 aliases, alias section in first/later/no part, dict and non-dict extra keys, duplicate dataset/alias names, '
                       'overlapping ids) x request sequences of length 2 over 12 request kinds (names, aliases, lists / tuples of names and of aliases, a missing name, garbage collection), dict- and JSON-backed',
                 thorough='request sequences of length 3'),
-    outside=['descriptions outside the family', 'request sequences longer than the bound'],
+    outside=['descriptions outside the family', 'request sequences longer than the bound', 'more than one other database alive in the process (one bystander with clashing names is always present)'],
 )
 
 A = {'a1': {'v': 1}, 'a2': {'v': 2}}
@@ -126,7 +126,33 @@ def _content(parts):
     return out
 
 
+OTHER = {'datasets': {'dsA': {'o1': {'v': 70}}, 'dsB': {'o2': {'v': 71}, 'o3': {'v': 72}}, 'dsC': {'o4': {'v': 73}}, 'dsE': {'o5': {'v': 74}}},
+         'alias': {'al1': ['dsB'], 'al2': ['dsA', 'dsC']}}
+
+
+def _other_expected(name):
+    ds, al = OTHER['datasets'], OTHER['alias']
+    out = []
+    for n in (al[name] if name in al else [name]):
+        for k, v in ds[n].items():
+            out.append(dict(v, example_id=k, dataset=name))
+    return out
+
+
 def body_db(kind, desc, nreq, r0, r1, r2):
+    # a bystander: another database of the same process that uses the same dataset and alias names for different content, with its
+    # datasets still alive while the database under test is built and queried ("every database description" is per database object)
+    other = DictDatabase(copy.deepcopy(OTHER))
+    other_held = {n: other.get_dataset(n) for n in ('dsA', 'dsB', 'al1', 'al2')}
+    ok = _body_db(kind, desc, nreq, r0, r1, r2)
+    if ok:
+        for n, dso in other_held.items():
+            if list(dso) != _other_expected(n) or list(other.get_dataset(n)) != _other_expected(n):
+                return False
+    return ok
+
+
+def _body_db(kind, desc, nreq, r0, r1, r2):
     parts_src, construct = DESCS[desc]
     parts = copy.deepcopy(parts_src)
     pristine = _content(parts)
